@@ -95,6 +95,11 @@ def getitem_unit(mode):
         h.assume(i >= 0, 'non-negative index')
         h.ctx.named['mode'] = z3.StringVal(mode)
         n = to_z3(f.length)
+        # "regardless of how small the in-memory cache is": also a cache that cannot hold even one trajectory
+        tiny = h.choice(2) == 1
+        h.ctx.named['cache_smaller_than_a_trajectory'] = z3.BoolVal(tiny)
+        if tiny:
+            h.I.hooks['cache_smaller_than_a_trajectory'] = True
         try:
             r = h.I.getitem(st, i)
         except PyExc as e:
@@ -322,6 +327,21 @@ def replay(payload):
                 pass
             except Exception as e:   # noqa
                 problems.append(f'store[len] raised {type(e).__name__}')
+        # a cache smaller than one trajectory: 12000 points (about 1.3 MiB) read through a 1 MiB cache
+        if m.get('cache_smaller_than_a_trajectory', True):
+            TrajectoryStore.active_in_thread = None
+            big = os.path.join(tmp, 'big.nc')
+            with TrajectoryStore.create(base_file=big) as ts:
+                ts.add(_mk(0, n=12000))
+                ts.add(_mk(1, n=10))
+            TrajectoryStore.active_in_thread = None
+            with TrajectoryStore.open(base_file=big, cache_size_mb=1) as ts:
+                for i, npts in ((0, 12000), (1, 10)):
+                    try:
+                        if len(ts[i]) != npts:
+                            problems.append(f'1 MiB cache: store[{i}] has {len(ts[i])} points, expected {npts}')
+                    except Exception as e:   # noqa
+                        problems.append(f'1 MiB cache: store[{i}] ({npts} points) raised {type(e).__name__}: {e}')
         return dict(reproduced=bool(problems), observed=problems[:6], session=dict(mode=mode, rows_at_open=n_open, added=added),
                     required='append-only list semantics')
     finally:
